@@ -204,6 +204,19 @@ Theorem c19_twochar_witness :
 Proof. exact w0x. Qed.
 Print Assumptions c19_twochar_witness.
 
+(* Zero-padded VALUES are inside the domain of c19_gate_is_msgseqnum / c19_delivery_tokens (tok_ok19 constrains the
+   TAGS to canonical decimals and the values to be SOH-free): `34=010` is a token stream with tok_ok19, the gating
+   number and the decoded MsgSeqNum are both 10 (the same decimal reading, atoi_u, of the same text); at expected 10
+   it is delivered, at expected 8 it is NOT delivered and answered with ResendRequest(8..). *)
+Theorem c19_padded_seqnum_witness :
+  forallb tok_ok19 toks_pad = true /\ enc_toks toks_pad = raw_pad /\
+  decoded_seq raw_pad = Some 10 /\ raw_seq raw_pad = Some 10 /\
+  s_next_recv s_exp10 = 10 /\ delivers_of (p_evs (proc raw_pad s_exp10)) = [b "D"] /\
+  s_next_recv s_exp8 = 8 /\ delivered (p_evs (proc raw_pad s_exp8)) = false /\
+  resend_from 8 (p_evs (proc raw_pad s_exp8)) = true.
+Proof. exact wpad. Qed.
+Print Assumptions c19_padded_seqnum_witness.
+
 (* Once the session is shut down the reader loop hands nothing more to process (no delivery after the end). *)
 Theorem c19_after_stop_nothing :
   forall sc decode fl now l s evs,
